@@ -173,7 +173,7 @@ pub fn wrap_classes(sc: &PairScenario, trace: &Trace, classes: &mut Vec<&'static
 }
 
 fn pair_strategy(tier: Tier) -> BoxedStrategy<PairScenario> {
-        let p = GenParams { max_ticks: tier.pick(400, 1000), max_sends: tier.pick(6, 10), max_frags: tier.pick(4, 12), tail: false, ..GenParams::default() };
+        let p = GenParams { max_ticks: tier.pick(400, 1000), max_sends: tier.pick(6, 10), max_frags: tier.pick(4, 12), tail: false, stall_weight: 8, ..GenParams::default() };
         let bulk = bulk_scenario_strategy(tier.pick(120, 300), tier.pick(80, 250), true, false);
         prop_oneof![5 => scenario_strategy(&p), 1 => bulk].boxed()
 }
